@@ -145,8 +145,7 @@ theorem idx_ids_weights_total (b : Pairs) (hb : BInv b) (hw : ∀ p ∈ b, p.2 <
     have hnd : (v.sorted.map (·.1)).Nodup := (binv_perm hperm hb).nodup
     have := findIdx_get v.sorted hnd id w (hperm.symm.subset hm)
     unfold Vals.idxOf ids weights
-    simp only [List.getElem?_map, this, Option.map_some]
-    exact ⟨rfl, rfl⟩
+    simp [List.getElem?_map, this]
   · intro id i
     unfold idxs
     rw [mem_enumFrom]
@@ -186,18 +185,54 @@ theorem rlp_roundtrip (b : Pairs) (hb : BInv b) (hf : Fields32 b) (v : Vals) (hv
   have : build v.sorted = build b := by unfold build; rw [hs]
   rw [this, hv]
 
-/-! ### ValidatorsBigBuilder (stakes are arbitrary naturals) -/
+/-! ### ValidatorsBigBuilder (stakes are arbitrary naturals; `hbits` says that the bit length of the
+    total is a Go `uint` — `big.Int.BitLen` returns an `int`, so it always holds) -/
+
+/-- The big builder is a map too: after any sequence of `Set` calls (nil or zero stakes delete)
+    the ids are distinct and no stored stake is zero — the hypothesis of the theorems below. -/
+theorem big_builder_is_map (ops : List (Nat × Option Nat)) : BInv (applyBigSets ops) := by
+  unfold applyBigSets
+  suffices h : ∀ b, BInv b → BInv (ops.foldl (fun b p => bigSet b p.1 p.2) b) from h [] binv_nil
+  induction ops with
+  | nil => intro b hb; exact hb
+  | cons o os ih =>
+    intro b hb
+    refine ih _ ?_
+    show BInv (bigSet b o.1 o.2)
+    unfold bigSet Gen.PosBig.bigSetDeletes
+    have hf := binv_filter hb o.1
+    split
+    · exact hf
+    · rename_i hk
+      constructor
+      · rw [List.map_append, List.nodup_append]
+        refine ⟨hf.nodup, by simp, ?_⟩
+        intro a ha c hc
+        simp at hc
+        subst hc
+        rcases List.mem_map.1 ha with ⟨p, hp, rfl⟩
+        have := (List.mem_filter.1 hp).2
+        simpa using this
+      · intro p hp
+        rcases List.mem_append.1 hp with hp | hp
+        · exact hf.nonzero p hp
+        · simp at hp
+          subst hp
+          intro h0
+          apply hk
+          simp only at h0
+          simp [h0]
 
 /-- shift = BitLen(total) − 31, and 0 when the total has at most 31 bits -/
-theorem big_shift_spec (t : Nat) : bigShift t = bitLen t - 31 := by
-  unfold bigShift Gen.PosBig.overBits Gen.PosBig.shiftInit
+theorem big_shift_spec (t : Nat) (hbits : bitLen t < 18446744073709551616) : bigShift t = bitLen t - 31 := by
+  unfold bigShift Gen.PosBig.overBits Gen.PosBig.shiftInit Gen.PosBig.shiftValue
   by_cases h : bitLen t > 31
-  · simp [h]
+  · simp only [h, decide_true, if_true]; omega
   · simp [h]; omega
 
 /-- the scaled total fits the weight limit 2^31−1 … -/
-theorem big_total_fits (t : Nat) : t / 2 ^ bigShift t ≤ 2147483647 := by
-  rw [big_shift_spec]
+theorem big_total_fits (t : Nat) (hbits : bitLen t < 18446744073709551616) : t / 2 ^ bigShift t ≤ 2147483647 := by
+  rw [big_shift_spec t hbits]
   have hb := (bitLen_spec t).1
   have hpos : 0 < 2 ^ (bitLen t - 31) := Nat.pow_pos (by decide)
   have : t / 2 ^ (bitLen t - 31) < 2147483648 := by
@@ -213,8 +248,8 @@ theorem big_total_fits (t : Nat) : t / 2 ^ bigShift t ≤ 2147483647 := by
   omega
 
 /-- … and the shift is minimal: with one bit less the total would not fit. -/
-theorem big_minimal_shift (t : Nat) (h : 0 < bigShift t) : 2147483648 ≤ t / 2 ^ (bigShift t - 1) := by
-  rw [big_shift_spec] at h ⊢
+theorem big_minimal_shift (t : Nat) (hbits : bitLen t < 18446744073709551616) (h : 0 < bigShift t) : 2147483648 ≤ t / 2 ^ (bigShift t - 1) := by
+  rw [big_shift_spec t hbits] at h ⊢
   have ht : t ≠ 0 := by
     intro h0; subst h0; simp [bitLen] at h
   have hb := (bitLen_spec t).2 ht
@@ -225,31 +260,34 @@ theorem big_minimal_shift (t : Nat) (h : 0 < bigShift t) : 2147483648 ≤ t / 2 
   simpa using hb
 
 /-- every stake is scaled by the same power of two; the conversion to uint32 loses nothing -/
-theorem big_truncation_identity (b : Stakes) (p : Nat × Nat) (hp : p ∈ b) :
+theorem big_truncation_identity (b : Stakes) (hbits : bitLen (bigTotal b) < 18446744073709551616) (p : Nat × Nat) (hp : p ∈ b) :
     scale (bigShift (bigTotal b)) p.2 = p.2 / 2 ^ bigShift (bigTotal b) := by
   have hle : p.2 ≤ bigTotal b := mem_le_sum _ _ (List.mem_map_of_mem (f := (·.2)) hp)
   have h1 : p.2 / 2 ^ bigShift (bigTotal b) ≤ bigTotal b / 2 ^ bigShift (bigTotal b) := Nat.div_le_div_right hle
-  have h2 := big_total_fits (bigTotal b)
+  have h2 := big_total_fits (bigTotal b) hbits
   unfold scale
   rw [Nat.shiftRight_eq_div_pow]
-  omega
+  generalize p.2 / 2 ^ bigShift (bigTotal b) = x at h1 ⊢
+  rw [Nat.mod_eq_of_lt (a := x) (by omega), Nat.mod_eq_of_lt (by omega)]
 
 /-- the weight order of stakes is kept -/
-theorem big_monotone (b : Stakes) (p q : Nat × Nat) (hp : p ∈ b) (hq : q ∈ b) (h : p.2 ≤ q.2) :
+theorem big_monotone (b : Stakes) (hbits : bitLen (bigTotal b) < 18446744073709551616) (p q : Nat × Nat) (hp : p ∈ b) (hq : q ∈ b) (h : p.2 ≤ q.2) :
     scale (bigShift (bigTotal b)) p.2 ≤ scale (bigShift (bigTotal b)) q.2 := by
-  rw [big_truncation_identity b p hp, big_truncation_identity b q hq]
+  rw [big_truncation_identity b hbits p hp, big_truncation_identity b hbits q hq]
   exact Nat.div_le_div_right h
 
 theorem bigBuilder_eq (b : Stakes) (hnd : (b.map (·.1)).Nodup) (s : Nat) :
     bigBuilder b s = (b.map (fun p => (p.1, scale s p.2))).filter (fun p => p.2 != 0) := by
   unfold bigBuilder
   rw [applySets_nodup]
-  simpa [List.map_map] using hnd
+  have : (b.map (fun p => (p.1, scale s p.2))).map (·.1) = b.map (·.1) := by
+    rw [List.map_map]; rfl
+  rw [this]; exact hnd
 
 /-- `Build` never panics: the scaled weights sum to at most ⌊total / 2^shift⌋ ≤ 2^31−1, so the
     uint32 running sum of `calcCaches` neither wraps nor exceeds the limit; the result's total is
     the sum of the scaled stakes. -/
-theorem big_no_panic (b : Stakes) (hnd : (b.map (·.1)).Nodup) :
+theorem big_no_panic (b : Stakes) (hbits : bitLen (bigTotal b) < 18446744073709551616) (hnd : (b.map (·.1)).Nodup) :
     ∃ v, bigBuild b = some v ∧
       v.total = (b.map (fun p => p.2 / 2 ^ bigShift (bigTotal b))).sum ∧ v.total ≤ 2147483647 := by
   have hsum : ((bigBuilder b (bigShift (bigTotal b))).map (·.2)).sum
@@ -258,11 +296,11 @@ theorem big_no_panic (b : Stakes) (hnd : (b.map (·.1)).Nodup) :
     congr 1
     apply List.map_congr_left
     intro p hp
-    exact big_truncation_identity b p hp
+    exact big_truncation_identity b hbits p hp
   have hle : (b.map (fun p => p.2 / 2 ^ bigShift (bigTotal b))).sum ≤ 2147483647 := by
     have := sum_div_le (b.map (·.2)) (2 ^ bigShift (bigTotal b))
     rw [List.map_map] at this
-    have h2 := big_total_fits (bigTotal b)
+    have h2 := big_total_fits (bigTotal b) hbits
     unfold bigTotal at h2
     exact Nat.le_trans this h2
   refine ⟨_, build_ok _ (by rw [hsum]; exact hle), ?_, ?_⟩
@@ -274,7 +312,7 @@ theorem big_no_panic (b : Stakes) (hnd : (b.map (·.1)).Nodup) :
 theorem big_order_independent (b b' : Stakes) (hp : b'.Perm b) (hnd : (b.map (·.1)).Nodup) :
     bigBuild b' = bigBuild b := by
   have hnd' : (b'.map (·.1)).Nodup := ((hp.map (·.1)).nodup_iff).2 hnd
-  have ht : bigTotal b' = bigTotal b := (hp.map (·.2)).sum_nat
+  have ht : bigTotal b' = bigTotal b := (List.Perm.map (fun p : Nat × Nat => p.2) hp).sum_nat
   unfold bigBuild
   rw [ht]
   generalize bigShift (bigTotal b) = s
